@@ -23,7 +23,7 @@ WTESTS = {"groups": ['parse'], "tests": ['tests/dec'], "counts": ["C01.parse."]}
 REQUIRED = {"orientation:forward": 20, "orientation:reverse": 20, "alias-alias-pair": 20, "self-pair": 5, "unknown-daughter": 20, "self-conjugate-daughter": 20,
             "aliased-daughter": 20, "source-from-CopyDecay": 10, "cdecay-without-source": 10, "decay+cdecay-one-name": 10, "decay+cdecay>=2-names": 5,
             "chargeconj-statements:1-2": 10, "chargeconj-statements>=6": 5, "switch-off:>3-tables+applicable": 10, "cdecay-before-source-block": 10,
-            "chargeconj-after-use": 10, "tables>=4": 20, "photos-and-params-in-source": 20, "corpus-cdecay-statements": 100, "two-aliases-of-a-self-conjugate-particle": 5, "two-copies-of-one-source": 5, "switch:off-then-on-same-instance": 20, "real-name-pair": 20, "alias-paired-with-plain-name": 10}
+            "chargeconj-after-use": 10, "tables>=4": 20, "photos-and-params-in-source": 20, "corpus-cdecay-statements": 100, "two-aliases-of-a-self-conjugate-particle": 5, "two-copies-of-one-source": 5, "switch:off-then-on-same-instance": 20, "switch:on-queried-then-off-same-instance": 20, "decay-block-empty+cdecay-same-name": 3, "real-name-pair": 20, "alias-paired-with-plain-name": 10}
 ASSUMPTIONS = ["each name is the subject of at most one CDecay; ChargeConj declarations are consistent (a partial involution); no ChargeConj pairs an alias with a real self-conjugate name",
                "relative order of derived tables is not compared"]
 
@@ -176,6 +176,16 @@ def gen_file(ctx):
             hits.append("decay+cdecay-one-name")
         elif len(ks) >= 2:
             hits.append("decay+cdecay>=2-names")
+    # Decay X with *no lines* (X declared stable) together with CDecay X, the conjugate having a table of its own: X keeps its empty table
+    if r.random() < 0.15:
+        for n, c in r.sample(pairs, 3):
+            if n not in used and c not in used and conj(n) == c:
+                used |= {n, c}
+                blocks.append({"k": "Decay", "m": n, "lines": []})
+                blocks.append({"k": "Decay", "m": c, "lines": [{"bf": "1.0", "fs": daughters(), "photos": False, "model": "PHSP", "params": []}]})
+                cdecays.append({"k": "CDecay", "name": n})
+                hits.append("decay-block-empty+cdecay-same-name")
+                break
     stmts = decgen.interleave(r, alias_st, cc_st, blocks, cdecays, copies)
     if r.random() < 0.5:
         r.shuffle(stmts)
@@ -241,6 +251,33 @@ def check(ctx, text, stmts, wit, workload, um=(), files=None):
             ctx.hit("switch-off:>3-tables+applicable")
         for mech, msg in snapshot.compare_globals(p, exp):
             ctx.violate("with-cdecay:" + mech, msg, w)
+        if include_cc and files is None and cd and ctx.rng.random() < 0.4:
+            # ... and the other way round: conjugated tables looked at, then the same instance parsed again with the switch off: they are gone
+            ctx.hit("switch:on-queried-then-off-same-instance")
+            import warnings  # noqa: PLC0415
+
+            from decaylanguage.dec.dec import DecayNotFound  # noqa: PLC0415
+
+            def off_again(p=p):
+                out = []
+                for x in cd:
+                    p.list_decay_modes(x)
+                with warnings.catch_warnings():
+                    warnings.simplefilter("ignore")
+                    p.parse(include_ccdecays=False)
+                out += snapshot.compare_tables(p, exp_off)
+                for x in cd:
+                    try:
+                        got = p.list_decay_modes(x)
+                    except DecayNotFound:
+                        continue
+                    out.append(("tables:derived:still-answered-after-switch-off", f"list_decay_modes({x!r}) = {got!r} although {x} is no longer among the mothers"))
+                return out
+
+            ok2, bad = ctx.guard("parse-off-after-on", w, off_again)
+            for mech, msg in (bad or []):
+                ctx.violate(mech + ":cc-off-after-on", msg, w)
+            continue
         if not include_cc and files is None and ctx.rng.random() < 0.5:
             # the switch is per call: the same instance parsed again with conjugates enabled must give the conjugated tables
             ctx.hit("switch:off-then-on-same-instance")
